@@ -34,6 +34,7 @@ def rand_net4(r, lens=(8, 12, 16, 20, 24, 28, 30, 32)):
 def gen_knobs(r):
     return {"set_key": "%08x" % r.getrandbits(32), "rand_seed": r.getrandbits(32), "urandom_key": r.getrandbits(32),
             "clock": 1_500_000_000 + r.getrandbits(28), "pid": r.randint(2, 60000),
+            "host": r.choice(["rtr-lab-1", "build42", "localhost", "anon-box"]),
             "environ": {"TZ": r.choice(["UTC", "Asia/Tokyo", "America/Lima"]), "LANG": r.choice(["C", "en_US.UTF-8", "de_DE.UTF-8"]),
                         "USER": r.choice(["root", "alice", "svc-netconan"]), "COLUMNS": str(r.choice([80, 132, 200]))},
             "listing_key": None if r.random() < 0.15 else "%08x" % r.getrandbits(32),
